@@ -3115,6 +3115,7 @@ func runC14(tier, replay string) int {
 			}
 		}
 	}
+	r.Extra("added_in_seeding_round_6", "a third of the base cases: stock `git pack-refs --all` between the build and the removal (the victim's refs live in packed-refs only)")
 	return r.Finish("before/after observation (ref table by gitraw and by git for-each-ref, .git/config key multiset, .git/git-bug listing, object set, cache answers, index hits) around a removal through bug.Remove / identity.Remove, RepoCache.{Bugs,Identities}().Remove(prefix), `git-bug bug rm` and `git-bug wipe`, in repositories with 0..3 remotes of which every subset holds the entity, 2..10 other entities with engineered shared id prefixes, at three points of an edit/push/pull history; followed by a second removal, reopen, rebuild from scratch and MergeAll without fetch. The removed entity is in one of four states: present locally (with 0..3 remote-tracking refs); fetched from 1..3 remotes and never merged (remote-tracking refs only); removed, fetched again, removed again (remote-tracking refs only); removed, pulled again, removed again. The remotes are named origin, origin2, peer, or (name cases) by 2..3 names of a set of unusual names git accepts: with one or several '/', with '.', '-', '_', a name that is a string or path prefix of another (team, team/alice, team/alice2, team/alice/laptop), the namespace words (bugs, identities) as name or path element; refs/remotes/<name>/<namespace>/<id> is recognised by the configured names, not by position. Configuration cases: 11 remote configurations that `git remote` produces and that are not one-name-one-absolute-URL: two and three NAMES of one URL (origin and upstream of one project; the victim pushed/fetched through all the names, through the last only, through the first only), a remote with a second url (`set-url --add`), with a pushurl different from its url, with a url relative to the work tree, a remote that was configured and never fetched (its URL an empty repository, or nothing at all), and a mix - with every API and victim state. Selection cases: `git-bug bug rm` after `git-bug bug select` of another bug, of the other bug sharing the longest id prefix with the victim, or of the victim itself; around the removal `bug rm` with an ambiguous prefix, with an id that never existed and with a mistyped prefix (before the removal, or after it and its repetition), the removal repeated, `bug show` without id (the selected bug must still be served), and last `bug rm` without id (refused: nothing may differ; accepted: only the selected bug may be gone); the refs of the selected bug are a class of their own (selected-bug-local / selected-bug-remote-tracking) and the selection file must keep its content unless it names the victim. Scale cases: the namespace of the removed entity holds 11..40 entities - one victim removed among many (entity API, cache API, CLI; with rebuild-keeps-index the cache rebuild deletes the cache files only and meets the search index of the earlier sessions), and RemoveAll of the whole population (RepoCache.RemoveAll, Bugs().RemoveAll, bug.RemoveAll + identity.RemoveAll over a cache and index built before): every ref of the emptied namespaces (local and remote-tracking of every configured remote) must go and no other ref, foreign config key, storage file or object may change; no removed id may be listed, resolved (by id, by prefix), returned by a query or found by its marker or by a marker every removed bug held, and the index document counts must equal the populations - in the same session, after a new identity and bug were created in the same session, after reopen, a second RemoveAll, a rebuild and MergeAll without fetch. Live cases: one handle (GoGitRepo, with the cache API the RepoCache over it) stays open, has used its remote list (GetRemotes, or the removal of another entity; or not at all), then stock git changes the configuration under it (remote add, rename, remove, remove+add), the handle pushes to / fetches from the remote that came out of it, and the victim is removed (or RemoveAll is run) through the same handle: the remote-tracking refs of every remote configured at that moment must go; MergeAll by the same handle and the usual persistence part follow. A removal of an entity without local ref that returns an error (the cache API and the CLI cannot resolve such an entity) is recorded as refused and only its frame is judged. A case is non-trivial when the removal was carried out and everything could be observed; distinct = distinct (kind, API, history point, #remotes, #holding remotes, longest engineered shared prefix, cross-namespace twin, prefix mode, user identity set, bridge config, fetched-unmerged entity, pre-built cache, state of the victim, set of remote names, remote configuration, selection and position of the unknown ids, scale family and population bucket, rebuild-keeps-index, RemoveAll scope, recreation, remote change under the handle and warm-up)",
 		min, []string{
 			"ids cannot be chosen: the configuration (sizes, shared prefix lengths, remotes) is a function of the seed, the concrete ids are not",
